@@ -1674,6 +1674,12 @@ def _saved_under(cx, fi, call):
                 ks = [cx.fold(t.slice) for t in nd_.targets if isinstance(t, ast.Subscript)]
                 if ks and all(isinstance(x, str) and x != 'key' for x in ks):
                     continue
+            # a comprehension over a constant table of (keyword, attribute name) rows
+            rows = _table_comprehension(cx, fi, nd_)
+            if rows is not None:
+                if 'key' in rows:
+                    val, undecided = rows['key'], None
+                continue
             # a mapping the middleware object keeps (``self.<attr>``, built once by the constructor), or a copy of it
             built = _constructor_built(cx, fi, nd_)
             if built is not None:
@@ -1687,6 +1693,31 @@ def _saved_under(cx, fi, call):
         if undecided is not None:
             raise AnalysisError('save_cookie arguments: cannot decide the entries of %s' % undecided)
     return val
+
+
+def _table_comprehension(cx, fi, e):
+    """``{k: getattr(self, a) for k, a in TABLE}`` where TABLE folds (through module-level names and imports) to a sequence of
+    (str, identifier) pairs  ->  {k: 'self.<a>'} (a later row wins, as in the comprehension); None for anything else."""
+    if not isinstance(e, ast.DictComp) or len(e.generators) != 1:
+        return None
+    g = e.generators[0]
+    if g.ifs or g.is_async or not (isinstance(g.target, ast.Tuple) and len(g.target.elts) == 2 and
+                                   all(isinstance(x, ast.Name) for x in g.target.elts)):
+        return None
+    kn, an = [x.id for x in g.target.elts]
+    v = e.value
+    if kn == an or 'self' in (kn, an) or not (isinstance(e.key, ast.Name) and e.key.id == kn):
+        return None
+    if not (isinstance(v, ast.Call) and isinstance(v.func, ast.Name) and v.func.id == 'getattr' and len(v.args) == 2 and not v.keywords
+            and norm(v.args[0]) == 'self' and isinstance(v.args[1], ast.Name) and v.args[1].id == an):
+        return None
+    if 'getattr' in fi.params() or 'getattr' in fi.mod.assigns or 'getattr' in fi.mod.imports or 'getattr' in fi.mod.functions:
+        return None
+    rows = cx.fold(g.iter)
+    if not isinstance(rows, (tuple, list)) or not all(isinstance(r, (tuple, list)) and len(r) == 2 and isinstance(r[0], str) and
+                                                      isinstance(r[1], str) and r[1].isidentifier() for r in rows):
+        return None
+    return dict((k, 'self.' + a) for k, a in rows)
 
 
 def _constructor_built(cx, fi, src):
@@ -1964,11 +1995,96 @@ def _same_const(a, b):
     return type(a) is type(b) and a == b
 
 
-def _excluded_expiry(cx, fi, cs):
+def _truth_conds(e, pol):
+    """The conditions that hold when ``e`` evaluates truthy (pol) / falsy (not pol): a conjunction that holds / a disjunction that
+    fails is taken apart, ``not`` flips; anything else stays one condition."""
+    if isinstance(e, ast.BoolOp) and isinstance(e.op, ast.And if pol else ast.Or):
+        return [c for v in e.values for c in _truth_conds(v, pol)]
+    if isinstance(e, ast.UnaryOp) and isinstance(e.op, ast.Not):
+        return _truth_conds(e.operand, not pol)
+    return [(e, pol)]
+
+
+_GETTER_STMTS = (ast.If, ast.Return, ast.Assign, ast.Expr, ast.Pass)
+
+
+def _readonly_getter(cx, fi, t):
+    """``self.<p>`` read in a method of a class of the analysed tree, where the class resolves ``p`` (along its MRO) to a read-only
+    ``@property`` whose getter only reads: branches, returns, local assignments; no call, no store other than to a local.  A
+    property is a data descriptor, so no instance attribute shadows it.  -> the getter's FuncInfo, or None."""
+    if not (isinstance(t, ast.Attribute) and isinstance(t.ctx, ast.Load) and isinstance(t.value, ast.Name) and t.value.id == 'self'):
+        return None
+    ci = fi.cls
+    if ci is None or fi.params()[:1] != ['self'] or 'self' in fi.params()[1:] or \
+            any(isinstance(x, ast.Name) and x.id == 'self' and not isinstance(x.ctx, ast.Load) for x in ast.walk(fi.node)):
+        return None
+    g = None
+    for c in cx.repo.mro(ci):
+        if not isinstance(c, ClassInfo):
+            return None                     # a base we do not see may define the name
+        if t.attr in c.class_attrs:
+            return None
+        if t.attr in c.methods:
+            g = c.methods[t.attr]
+            break
+    if g is None or g.mod.external or g is fi:
+        return None
+    n = g.node
+    if not isinstance(n, ast.FunctionDef) or len(n.decorator_list) != 1 or norm(n.decorator_list[0]) != 'property':
+        return None
+    if sum(1 for m in g.cls.node.body if isinstance(m, (ast.FunctionDef, ast.AsyncFunctionDef, ast.ClassDef)) and m.name == t.attr) != 1:
+        return None
+    gm = g.mod
+    if 'property' in gm.assigns or 'property' in gm.imports or 'property' in gm.functions or 'property' in gm.classes:
+        return None
+    a = n.args
+    if [x.arg for x in a.args] != ['self'] or a.posonlyargs or a.kwonlyargs or a.vararg or a.kwarg:
+        return None
+    for x in ast.walk(n):
+        if x is n:
+            continue
+        if isinstance(x, ast.stmt) and not isinstance(x, _GETTER_STMTS):
+            return None
+        if isinstance(x, (ast.Call, ast.Await, ast.Yield, ast.YieldFrom, ast.NamedExpr, ast.Lambda, ast.ListComp, ast.SetComp, ast.DictComp,
+                          ast.GeneratorExp)):
+            return None
+        if isinstance(x, ast.Expr) and not isinstance(x.value, ast.Constant):
+            return None
+        if isinstance(x, (ast.Attribute, ast.Subscript, ast.Starred, ast.Tuple, ast.List)) and not isinstance(x.ctx, ast.Load):
+            return None
+        if isinstance(x, ast.Name) and x.id == 'self' and not isinstance(x.ctx, ast.Load):
+            return None
+    return g
+
+
+def _property_excludes(cx, fi, t, pol, depth=0):
+    """The path condition ``self.<p>`` holds, ``p`` a read-only property (_readonly_getter): the getter returned a truthy value, so one of
+    its returns that can yield one was reached -- under its own path conditions, with its expression true.  What *every* such return
+    excludes for self.expiry is excluded here.  (The getter reads the same object at the moment of the test: nothing runs in between.)
+    A condition that fails says less (the getter may also run off its end); nothing is concluded from it."""
+    if not pol or depth > 2:
+        return []
+    g = _readonly_getter(cx, fi, t)
+    if g is None:
+        return []
+    common = None
+    for r in returns_of(g):
+        if r.value is None or (isinstance(r.value, ast.Constant) and not r.value.value):
+            continue                        # None / False / 0 / '': this return never makes the condition hold
+        ex = _excluded_expiry(cx, g, list(conds(g, r)) + _truth_conds(r.value, True), depth + 1)
+        common = ex if common is None else [v for v in common if any(_same_const(v, x) for x in ex)]
+    return common or []
+
+
+def _excluded_expiry(cx, fi, cs, _depth=0):
     """Constant values the path conditions say self.expiry is different from (``!=`` holds, ``==`` fails,
-    ``not in (..)`` holds, ``in (..)`` fails; either operand order; a local naming self.expiry is followed)."""
+    ``not in (..)`` holds, ``in (..)`` fails; either operand order; a local naming self.expiry is followed; a read-only
+    property of the class standing for such a test is read through its getter)."""
     out = []
     for t, pol in cs:
+        if isinstance(t, ast.Attribute):
+            out.extend(_property_excludes(cx, fi, t, pol, _depth))
+            continue
         if not (isinstance(t, ast.Compare) and len(t.ops) == 1):
             continue
         op, l, r = t.ops[0], _follow(fi, t.left), _follow(fi, t.comparators[0])
